@@ -90,6 +90,8 @@ CATALOGUE = [
     ("irf_kernel_only_first_three_gaussians", "C05", "builtin/megacomplexes/decay/decay_matrix_gaussian_irf.py", "    for n_i in nb.prange(centers.size):", "    for n_i in nb.prange(min(centers.size, 3)):", 1),
     ("align_only_short_target_axes", "C09", "optimization/data_provider.py", "        if len(diff) > 0 and diff.min() <= tolerance:", "        if 0 < len(diff) < 50 and diff.min() <= tolerance:", 1),
     ("slice_wrong_for_long_axes", "C08", "optimization/data_provider.py", "        minimum = 0 if np.isinf(interval_min) else np.abs(axis - interval_min).argmin()", "        minimum = 0 if np.isinf(interval_min) or axis.size > 20 else np.abs(axis - interval_min).argmin()", 1),
+    ("retrieve_clps_relation_by_missing_label", "C01", "optimization/estimation_provider.py", "                and relation.applies(index)\n                and relation.source in clp_labels", "                and relation.target not in reduced_clp_labels\n                and relation.source in clp_labels", 1),
+    ("harmless_retrieve_clps_condition_order", "C01", "optimization/estimation_provider.py", "                relation.target in clp_labels\n                and relation.applies(index)\n                and relation.source in clp_labels", "                relation.applies(index)\n                and relation.target in clp_labels\n                and relation.source in clp_labels", 0),
     ("vp_zeroing_stops_at_eight_columns", "C01", "optimization/variable_projection.py", "    for i in range(matrix.shape[1]):", "    for i in range(min(matrix.shape[1], 8)):", 1),
     ("harmless_no_irf_kernel_loops_interchanged", "C04", "builtin/megacomplexes/decay/util.py", "    for n_r in nb.prange(rates.size):\n        r_n = rates[n_r]\n        for n_t in range(times.size):\n            t_n = times[n_t]\n            matrix[n_t, n_r] += np.exp(-r_n * t_n)", "    for n_t in nb.prange(times.size):\n        t_n = times[n_t]\n        for n_r in range(rates.size):\n            r_n = rates[n_r]\n            matrix[n_t, n_r] += np.exp(-r_n * t_n)", 0),
     ("harmless_irf_kernel_loops_interchanged", "C05", "builtin/megacomplexes/decay/decay_matrix_gaussian_irf.py", "    for n_i in nb.prange(centers.size):\n        center, width, scale = centers[n_i], widths[n_i], scales[n_i]\n        for n_r in nb.prange(rates.size):\n            r_n = rates[n_r]\n            backsweep_valid = backsweep and abs(r_n) * backsweep_period > 0.001\n            alpha = (r_n * width) / SQRT2\n            for n_t in nb.prange(times.size):\n                t_n = times[n_t]", "    for n_r in nb.prange(rates.size):\n        r_n = rates[n_r]\n        backsweep_valid = backsweep and abs(r_n) * backsweep_period > 0.001\n        for n_t in nb.prange(times.size):\n            t_n = times[n_t]\n            for n_i in nb.prange(centers.size):\n                center, width, scale = centers[n_i], widths[n_i], scales[n_i]\n                alpha = (r_n * width) / SQRT2", 0),
